@@ -11,7 +11,6 @@ use super::*;
 ///           it was not beyond on the previous step (this is what the doc comment says);
 /// `false` — as a level: the signal is present on every step on which `Source2` lies beyond a bound
 ///           (this is what the implementation does; DESIGN.md Appendix A reading).
-const CROSSING_IS_AN_EVENT: bool = true;
 
 #[derive(Clone)]
 pub struct Envelopes {
@@ -21,6 +20,8 @@ pub struct Envelopes {
 	ma: Box<dyn rm::RefVV>,
 	was_above: bool,
 	was_below: bool,
+	/// implementation reading (recorded discrepancy): the signal is a LEVEL, present on every step beyond a bound
+	follow_impl: bool,
 }
 
 /// the source as a plain number (for the state of the prehistory)
@@ -39,6 +40,12 @@ fn src_f64(c: &RC, kind: &str) -> f64 {
 }
 
 pub fn make(cfg: &Cfg, c0: &RC) -> Option<Box<dyn IndRef>> {
+	build(cfg, c0, false)
+}
+pub fn make_alt(cfg: &Cfg, c0: &RC) -> Option<Box<dyn IndRef>> {
+	build(cfg, c0, true)
+}
+fn build(cfg: &Cfg, c0: &RC, follow_impl: bool) -> Option<Box<dyn IndRef>> {
 	let src = cfg.src("source");
 	let src2 = cfg.src("source2");
 	let k = cfg.float("k");
@@ -52,6 +59,7 @@ pub fn make(cfg: &Cfg, c0: &RC) -> Option<Box<dyn IndRef>> {
 		src,
 		src2,
 		k,
+		follow_impl,
 	}))
 }
 
@@ -66,7 +74,7 @@ impl IndRef for Envelopes {
 		// "beyond a bound" is a strict comparison
 		let above = price > upper;
 		let below = price < lower;
-		let (sell, buy) = if CROSSING_IS_AN_EVENT { (above && !self.was_above, below && !self.was_below) } else { (above, below) };
+		let (sell, buy) = if !self.follow_impl { (above && !self.was_above, below && !self.was_below) } else { (above, below) };
 		self.was_above = above;
 		self.was_below = below;
 		vec![sig_sign(buy as i32 - sell as i32)]
